@@ -1338,9 +1338,12 @@ _CODES = {"b": (1, True), "B": (1, False), "h": (2, True), "H": (2, False), "i":
 
 
 def parse_fmt(fmt):
-    if fmt[0] not in "<>!=":
-        raise Inconclusive(f"native struct format {fmt!r} not modelled")
-    order = "little" if fmt[0] == "<" or (fmt[0] == "=" and _struct_mod.pack("=H", 1)[0] == 1) else "big"
+    if fmt[0] not in "<>!=@":
+        raise Inconclusive(f"struct format {fmt!r} without byte-order prefix not modelled")
+    if fmt[0] == "@" and _real_len([c for c in fmt[1:] if not c.isdigit()]) != 1:
+        raise Inconclusive(f"native struct format {fmt!r} with several codes (alignment) not modelled")
+    native_little = _struct_mod.pack("=H", 1)[0] == 1
+    order = "little" if fmt[0] == "<" or (fmt[0] in "=@" and native_little) else "big"
     out, num = [], ""
     for ch in fmt[1:]:
         if ch.isdigit():
@@ -1359,6 +1362,7 @@ def parse_fmt(fmt):
 def model_unpack(st, data):
     ENGINE.models_used.add("struct.Struct.unpack")
     order, codes = parse_fmt(st.format)
+    native = st.format[0] == "@"
     items = tobytes_items(data)
     if _real_len(items) != st.size:
         raise _struct_mod.error("unpack requires a buffer of %d bytes" % st.size)
@@ -1368,6 +1372,8 @@ def model_unpack(st, data):
             pos += 1
             continue
         size, kind = _CODES[ch]
+        if native:
+            size = _struct_mod.calcsize("@" + ch)
         chunk = items[pos:pos + size]
         pos += size
         if kind == "float":
@@ -1388,6 +1394,7 @@ def model_unpack(st, data):
 def model_pack(st, *vals):
     ENGINE.models_used.add("struct.Struct.pack")
     order, codes = parse_fmt(st.format)
+    native = st.format[0] == "@"
     out = []
     vals = list(vals)
     nvals = sum(1 for c in codes if c != "x")
@@ -1398,6 +1405,8 @@ def model_pack(st, *vals):
             out.append(0)
             continue
         size, kind = _CODES[ch]
+        if native:
+            size = _struct_mod.calcsize("@" + ch)
         v = payload(vals.pop(0))
         if kind == "float":
             if _real_type(v) is SFloat:
